@@ -201,7 +201,9 @@ RefSpecs(t, p) ==
         \o RefSpecs(t, p + 2)
     ELSE LET r == IF t[p + 1] = "(" THEN MatchParen(t, p + 2, 1) ELSE 0
              haskey == t[p + 1] = "("
-         IN IF haskey /\ r = 0 THEN << >>
+         IN IF haskey /\ r = 0 THEN      \* incomplete format key: recorded with the rest of the template as key
+                << [haskey |-> TRUE, key |-> SubSeq(t, p + 2, Len(t)), star |-> FALSE, emptyprec |-> FALSE,
+                    ch |-> "EOF", adjacent |-> FALSE] >>
             ELSE LET q1 == IF haskey THEN r + 1 ELSE p + 1
                      q2 == RunEnd(t, q1, {"-", "+", " ", "#", "0"})
                      wstar == At(t, q2) = "*"
@@ -412,8 +414,10 @@ Dev_KeyGrammar(c, k) == SeqAny(RSpecs(c), KeyOdd) \/ (Has(c.t, "(") /\ RefRun(c)
 \* '%s %(k)s' % {'k': 1}: internal error (join over a None key)
 Dev_MixedKeyCrash(c) ==
     /\ c.args.shape = "dict" /\ \A j \in 1..Len(c.args.items) : c.args.keys[j].ty = "str"
-    /\ SeqAny(RSpecs(c), LAMBDA s : s.haskey)
-    /\ SeqAny(RSpecs(c), LAMBDA s : ~s.haskey /\ ~s.adjacent)       \* a "%" without key other than "%%"
+    \* the template has a "%(" and a "%" that does not start a mapping key (stated on the text: with
+    \* unbalanced parentheses CPython and the regex delimit the specifiers differently)
+    /\ \E j \in 1..Len(c.t) : c.t[j] = "%" /\ At(c.t, j + 1) = "("
+    /\ \E j \in 1..Len(c.t) : c.t[j] = "%" /\ At(c.t, j + 1) # "("
 
 DevMissed(c, k) ==
     CASE Dev_IntConvFloat(c, k) -> "percent-x-float"
